@@ -32,6 +32,8 @@ import (
 	"github.com/google/uuid"
 
 	"github.com/provenance-io/provenance/app"
+	"github.com/provenance-io/provenance/x/exchange"
+	exchangekeeper "github.com/provenance-io/provenance/x/exchange/keeper"
 	markerkeeper "github.com/provenance-io/provenance/x/marker/keeper"
 	markertypes "github.com/provenance-io/provenance/x/marker/types"
 	metadatakeeper "github.com/provenance-io/provenance/x/metadata/keeper"
@@ -63,6 +65,40 @@ var (
 	}
 )
 
+const vownerMarket = uint32(1)
+
+type vownerOrder struct {
+	id            uint64
+	seller, asset string
+	price         int64
+}
+
+// orders lists the exchange's ask orders (ascending order id) with symbolic seller / asset names.
+func (e *vownerEnv) orders() []vownerOrder {
+	var res []vownerOrder
+	_ = e.app.ExchangeKeeper.IterateOrders(e.ctx, func(o *exchange.Order) bool {
+		ask := o.GetAskOrder()
+		if ask == nil {
+			res = append(res, vownerOrder{id: o.OrderId, seller: "?", asset: "?"})
+			return false
+		}
+		asset := "?"
+		for n, id := range e.scope {
+			if id.Denom() == ask.Assets.Denom && ask.Assets.Amount.Equal(sdkmath.OneInt()) {
+				asset = n
+			}
+		}
+		price := int64(-1)
+		if ask.Price.Denom == vownerCoins["$c"] && ask.Price.Amount.IsInt64() {
+			price = ask.Price.Amount.Int64()
+		}
+		res = append(res, vownerOrder{id: o.OrderId, seller: e.sym(ask.Seller), asset: asset, price: price})
+		return false
+	})
+	sort.Slice(res, func(i, j int) bool { return res[i].id < res[j].id })
+	return res
+}
+
 type vownerEnv struct {
 	t     *testing.T
 	app   *app.App
@@ -75,6 +111,7 @@ type vownerEnv struct {
 	md    mdtypes.MsgServer
 	bank  banktypes.MsgServer
 	mk    markertypes.MsgServer
+	ex    exchange.MsgServer
 	mdnm  map[string]string // marker name -> its denom
 	seen  map[vownerGrant]bool // generator only: every grant that was in force at some step of this history
 }
@@ -134,6 +171,12 @@ func vownerSetup(t *testing.T) *vownerEnv {
 		e.md = metadatakeeper.NewMsgServerImpl(a.MetadataKeeper)
 		e.bank = bankkeeper.NewMsgServerImpl(a.BankKeeper)
 		e.mk = markerkeeper.NewMsgServerImpl(a.MarkerKeeper)
+		// one exchange market: accepting orders, user settlement allowed, no fees, no required attributes
+		if _, err := a.ExchangeKeeper.CreateMarket(ctx, exchange.Market{MarketId: vownerMarket, MarketDetails: exchange.MarketDetails{Name: "vowner market"},
+			AcceptingOrders: true, AllowUserSettlement: true}); err != nil {
+			t.Fatalf("create market: %v", err)
+		}
+		e.ex = exchangekeeper.NewMsgServer(a.ExchangeKeeper)
 		vownerE = e
 	})
 	vownerE.t = t
@@ -214,8 +257,14 @@ func vownerClass(err error) string {
 		return "err:withdraw"
 	case has("ACCESS_DEPOSIT"):
 		return "err:deposit"
-	case has("insufficient funds"), has("is smaller than"):
+	case has("insufficient funds"), has("is smaller than"), has("is less than hold amount"):
 		return "err:funds"
+	case has("does not have permission to cancel order"):
+		return "err:perm"
+	case has("order") && (has("not found") || has("does not exist")):
+		return "err:notfound"
+	case has("has the same seller"), has("does not equal sum of ask order prices"):
+		return "err:invalid"
 	case has("duplicate metadata address"):
 		return "err:dup"
 	case has("no account address associated with metadata address"):
@@ -397,7 +446,25 @@ func (e *vownerEnv) dump() string {
 		ms = append(ms, fmt.Sprintf("%s:%s:%s:%s", mn, r, st, JoinOr(acc, "+")))
 	}
 	sort.Strings(ms)
-	return strings.Join(parts, " ") + " grants=" + JoinOr(gs, ",") + " markers=" + JoinOr(ms, ",")
+	var os []string
+	for _, o := range e.orders() {
+		os = append(os, fmt.Sprintf("%d:%s:%s:%d", o.id, o.seller, o.asset, o.price))
+	}
+	var hs []string
+	for _, an := range vownerAll {
+		for _, n := range vownerIDs {
+			c, err := e.app.HoldKeeper.GetHoldCoin(e.ctx, e.addr[an], e.scope[n].Denom())
+			if err != nil {
+				hs = append(hs, "!"+an+"."+n)
+				continue
+			}
+			for i := int64(0); c.Amount.IsInt64() && i < c.Amount.Int64(); i++ {
+				hs = append(hs, an+"."+n)
+			}
+		}
+	}
+	sort.Strings(hs)
+	return strings.Join(parts, " ") + " grants=" + JoinOr(gs, ",") + " markers=" + JoinOr(ms, ",") + " orders=" + JoinOr(os, ",") + " holds=" + JoinOr(hs, ",")
 }
 
 // coinsOf: one unit of each named denom (scope ids map to their scope denom, `$…` names to ordinary coins), sorted.
@@ -473,6 +540,31 @@ func (e *vownerEnv) exec(op string) string {
 			return "panic:" + pan
 		}
 		return vownerClass(err)
+	case "ask": // exchange MsgCreateAsk: one unit of a scope token for `price` $c, signed by the seller
+		id, ok := e.scope[kvArg2(ws, "asset")]
+		if !ok {
+			return "err:invalid" // the model's asks name scope tokens only (not generated otherwise)
+		}
+		var price int64
+		fmt.Sscan(kvArg2(ws, "price"), &price)
+		seller := e.bech(kvArg2(ws, "seller"))
+		msg := &exchange.MsgCreateAskRequest{AskOrder: exchange.AskOrder{MarketId: vownerMarket, Seller: seller, Assets: id.Coin(),
+			Price: sdk.NewInt64Coin(vownerCoins["$c"], price)}}
+		return e.run(msg, []string{seller}, func(ctx sdk.Context) error { _, err := e.ex.CreateAsk(ctx, msg); return err })
+	case "fill": // exchange MsgFillAsks of one ask order, signed by the buyer
+		var oid uint64
+		var price int64
+		fmt.Sscan(kvArg2(ws, "order"), &oid)
+		fmt.Sscan(kvArg2(ws, "price"), &price)
+		buyer := e.bech(kvArg2(ws, "buyer"))
+		msg := &exchange.MsgFillAsksRequest{Buyer: buyer, MarketId: vownerMarket, TotalPrice: sdk.NewInt64Coin(vownerCoins["$c"], price), AskOrderIds: []uint64{oid}}
+		return e.run(msg, []string{buyer}, func(ctx sdk.Context) error { _, err := e.ex.FillAsks(ctx, msg); return err })
+	case "cancel": // exchange MsgCancelOrder
+		var oid uint64
+		fmt.Sscan(kvArg2(ws, "order"), &oid)
+		signer := e.bech(kvArg2(ws, "signer"))
+		msg := &exchange.MsgCancelOrderRequest{Signer: signer, OrderId: oid}
+		return e.run(msg, []string{signer}, func(ctx sdk.Context) error { _, err := e.ex.CancelOrder(ctx, msg); return err })
 	case "msend": // bank MsgMultiSend: one input (the signer), one unit of each named denom per output
 		from := e.bech(kvArg2(ws, "from"))
 		var outs []banktypes.Output
@@ -1171,7 +1263,97 @@ func driveVowner(t *testing.T, rng *RNG, n int, out *Out) {
 					}
 				}
 			}
+			// the exchange route: ask orders on scope tokens (hold), fills, cancels, and attempts to move a
+			// token that is on hold by another route
+			if k != -1 && rng.Chance(16) {
+				k = -2
+				ords := e.orders()
+				var ordinaryHeld []string // tokens held by an ordinary account
+				for _, id := range held {
+					if contains(people, v.holder[id]) {
+						ordinaryHeld = append(ordinaryHeld, id)
+					}
+				}
+				switch x := rng.Intn(100); {
+				case len(ords) > 0 && x < 45: // fill
+					kind = "fill"
+					o := Pick(rng, ords)
+					buyer := Pick(rng, people)
+					for buyer == o.seller && rng.Chance(92) {
+						buyer = Pick(rng, people)
+					}
+					if rng.Chance(5) {
+						buyer = "MU" // a marker cannot pay: no transfer agent
+					}
+					if contains(vownerAccts, buyer) && rng.Chance(80) {
+						pre(fmt.Sprintf("fund addr=%s denom=$c amount=%d", buyer, o.price+int64(rng.Intn(3))))
+					}
+					oid, price := o.id, o.price
+					if rng.Chance(7) {
+						oid += 3
+					}
+					if rng.Chance(8) {
+						price++
+					}
+					signers = buyer
+					v = e.view()
+					before = v
+					r = emit(fmt.Sprintf("fill buyer=%s order=%d price=%d", buyer, oid, price))
+					if contains(vownerAccts, buyer) {
+						emit("bal addr=" + buyer + " denom=$c")
+					}
+					if contains(vownerAccts, o.seller) {
+						emit("bal addr=" + o.seller + " denom=$c")
+					}
+				case len(ords) > 0 && x < 60: // cancel
+					kind = "cancel"
+					o := Pick(rng, ords)
+					signer := o.seller
+					if rng.Chance(30) {
+						signer = Pick(rng, people)
+					}
+					oid := o.id
+					if rng.Chance(8) {
+						oid += 2
+					}
+					r = emit(fmt.Sprintf("cancel signer=%s order=%d", signer, oid))
+				case len(ords) > 0 && x < 80: // a token on hold must not leave by any other route
+					o := Pick(rng, ords)
+					tgt := vownerPickTarget(rng, o.seller)
+					switch rng.Intn(5) {
+					case 0:
+						kind, signers = "updvo", o.seller
+						r = emit(fmt.Sprintf("updvo ids=%s vo=%s signers=%s", o.asset, tgt, o.seller))
+					case 1:
+						kind, signers = "migrate", o.seller
+						r = emit(fmt.Sprintf("migrate from=%s to=%s signers=%s", o.seller, tgt, o.seller))
+					case 2:
+						kind = "send"
+						r = emit(fmt.Sprintf("msend from=%s outs=%s:%s", o.seller, tgt, o.asset))
+					case 3:
+						kind, signers = "delete", JoinOr(vownerUniq(append(vownerAddrs(v.owners[o.asset]), o.seller)), "|")
+						r = emit(fmt.Sprintf("delete id=%s signers=%s", o.asset, signers))
+					default:
+						kind = "send"
+						r = emit(fmt.Sprintf("send from=%s to=%s ids=%s", o.seller, tgt, o.asset))
+					}
+					out.Count("held-token-other-route:" + resClassV(r))
+				default: // ask
+					kind = "ask"
+					seller := Pick(rng, people)
+					asset := Pick(rng, vownerIDs)
+					if len(ordinaryHeld) > 0 && rng.Chance(85) {
+						asset = Pick(rng, ordinaryHeld)
+						seller = v.holder[asset]
+						if rng.Chance(8) {
+							seller = Pick(rng, people) // somebody who does not hold it
+						}
+					}
+					r = emit(fmt.Sprintf("ask seller=%s asset=%s price=%d", seller, asset, rng.Intn(6)))
+				}
+			}
 			switch {
+			case k == -2: // the exchange step above
 			case k == -1: // the repeated message above
 			case k < 30 || len(existing) == 0: // write scope
 				kind = "write"
@@ -1522,7 +1704,7 @@ func driveVowner(t *testing.T, rng *RNG, n int, out *Out) {
 					default:
 						out.Count("move:" + kind + ":transfer")
 					}
-					if b != "" && kind != "send" && kind != "mwithdraw" && !contains(sg, b) && !contains(vownerMarkers, b) {
+					if b != "" && kind != "send" && kind != "mwithdraw" && kind != "fill" && !contains(sg, b) && !contains(vownerMarkers, b) {
 						if again == nil || again.holder != b {
 							again = &vownerAgain{kind: kind, signers: signers, holder: b}
 						}
@@ -1532,6 +1714,8 @@ func driveVowner(t *testing.T, rng *RNG, n int, out *Out) {
 					}
 					if b != "" {
 						switch {
+						case kind == "fill":
+							out.Count("route:exchange-fill")
 						case kind == "send":
 							out.Count("route:own-send")
 						case kind == "mwithdraw":
